@@ -2,6 +2,8 @@
 # confirm_seed_unit.sh <property id> <seed name> <agent worktree> <source file holding patch+demo> <cargo test args...>
 # Like confirm_seed.sh for demonstrations that are unit tests appended to a library source file.
 set -u
+# SHADOW=1: run the check part against the shadow copy (tools/shadow.sh make) instead of /repo itself
+if [ "${SHADOW:-0}" = 1 ]; then CHECK_REPO=/tmp/shadow/repo; CHECK_VERIF=/tmp/shadow/verif; else CHECK_REPO=/repo; CHECK_VERIF=/verif; fi
 ID="$1"; NAME="$2"; WT="$3"; SRC="$4"; shift 4
 OUT="/verif/seeded/$NAME"; mkdir -p "$OUT"
 CF="/tmp/cf/$NAME"; rm -rf "$CF"; mkdir -p /tmp/cf
@@ -23,10 +25,10 @@ CARGO_TARGET_DIR=/tmp/cf/target-$NAME cargo test --offline "$@" >/tmp/cf/demo-wi
 res "demo without the change: exit $without ($(grep -E '^test result' /tmp/cf/demo-without-$NAME.log | tail -1))"
 cd /verif
 git -C /repo worktree remove --force "$CF"; rm -rf /tmp/cf/target-$NAME
-if [ -n "$(git -C /repo status --porcelain)" ]; then res "/repo not clean, refusing"; exit 2; fi
-git -C /repo apply "$OUT/patch.diff" || { res "patch does not apply to /repo"; exit 1; }
-./run.sh check "$ID" quick > "$OUT/check-quick.log" 2>&1; rc=$?
+if [ -n "$(git -C $CHECK_REPO status --porcelain)" ]; then res "/repo not clean, refusing"; exit 2; fi
+git -C $CHECK_REPO apply "$OUT/patch.diff" || { res "patch does not apply to /repo"; exit 1; }
+(cd $CHECK_VERIF && ./run.sh check "$ID" quick) > "$OUT/check-quick.log" 2>&1; rc=$?
 res "check $ID quick against the change: exit $rc; $(grep -c '^VIOLATION' "$OUT/check-quick.log") VIOLATION lines; $(grep '^SUMMARY' "$OUT/check-quick.log" | cut -c1-200)"
 grep '^VIOLATION' "$OUT/check-quick.log" | cut -c1-300 | head -5 >> "$OUT/confirm.log"
-git -C /repo checkout -- .
-res "reverted: $(git -C /repo status --porcelain | wc -l) dirty files"
+git -C $CHECK_REPO checkout -- .
+res "reverted: $(git -C $CHECK_REPO status --porcelain | wc -l) dirty files"
